@@ -37,7 +37,7 @@ class MLP(nn.Module):
         self.num_neurons = num_neurons
         self.hidden_act = getattr(nn, hidden_act)()
         self.out_act = getattr(nn, out_act)()
-        self.dropouts = []
+        self.dropouts = nn.ModuleList()
         for i in range(len(dropout_probs)):
             self.dropouts.append(nn.Dropout(p=dropout_probs[i]))
 
